@@ -336,6 +336,7 @@ func c17File(f []string) (string, []Fail) {
 	_ = openFailed
 	full := c17FileData(nrec)
 	nrecRead := -1
+	rawAccepted := false
 	res := guardT(10*time.Second, func() string {
 		it, err := obiformats.ReadSequencesFromFile(path, obiformats.OptionsParallelWorkers(1))
 		if err != nil {
@@ -357,17 +358,14 @@ func c17File(f []string) (string, []Fail) {
 	if class == "raw" {
 		// a file cut inside its magic number is not a compressed file any more: it is read as plain text
 		// (and refused unless it happens to look like a sequence file); the model has no opinion
-		if res == "ok" && nrecRead > 0 {
-			res = "raw-accepted"
-		} else {
-			res = "raw"
-		}
+		rawAccepted = res == "ok" && nrecRead > 0
+		res = "raw"
 	}
 	caseOverride = fmt.Sprintf("file %s nrec=%d %s n=%d err=%s", codec, nrec, f[3], n, class)
 	var fails []Fail
 	stat("damage-class:" + class)
-	if res == "raw-accepted" {
-		fails = append(fails, Fail{Sig: "file." + codec + ".accepted-damaged", Text: label + ": damaged magic number read as sequence data"})
+	if rawAccepted {
+		fails = append(fails, Fail{Sig: "file." + codec + ".magic-damaged-accepted-as-text", Text: label + ": the magic number is damaged, the file is no longer recognised as compressed and its bytes were accepted as a text format"})
 	}
 	if res == "ok" || res == "empty" {
 		// accepted: then the file must have delivered the complete data
@@ -378,7 +376,7 @@ func c17File(f []string) (string, []Fail) {
 			}
 			fails = append(fails, Fail{Sig: sig, Text: fmt.Sprintf("%s: %d of %d bytes decoded (decompressor says %s) and the reader ended normally with %d of %d records", label, n, len(full), class, nrecRead, nrec)})
 		}
-	} else if res != "fail" && res != "raw" && res != "raw-accepted" {
+	} else if res != "fail" && res != "raw" {
 		fails = append(fails, Fail{Sig: "file.outcome", Text: res})
 	}
 	return res, fails
@@ -445,7 +443,7 @@ func repoCommandC17(name string) (string, error) {
 	if repo == "" {
 		repo = "/repo"
 	}
-	out := filepath.Join(root, "bin", "cmd17_"+name)
+	out := filepath.Join(binDir(), "cmd17_"+name)
 	cmd := exec.Command("go", "build", "-o", out, "./cmd/obitools/"+name)
 	cmd.Dir = repo
 	env := []string{}
